@@ -161,6 +161,15 @@ func genCase(t *rapid.T, env *stdrun.Env) Case {
 		v.Build = builds[rapid.IntRange(1, len(builds)-1).Draw(t, "build2")]
 		v.Name += "+" + v.Build
 	}
+	// the buffers' prior contents are an independent dimension: half of all variants also hand the decoder a work
+	// buffer (of exactly the requested length in chunked plans) and destination slack full of garbage
+	if v.WorkFill == 0 && rapid.Bool().Draw(t, "bufgarbage") {
+		v.WorkFill = stdh.PrefillRandom
+		if v.DstFill == 0 {
+			v.DstFill = rapid.SampledFrom([]uint8{0xFF, stdh.PrefillRandom}).Draw(t, "dstfill2")
+		}
+		v.Name += "+buffer-garbage"
+	}
 	c.Variant = v
 	return c
 }
@@ -268,6 +277,9 @@ func checkCase(env *stdrun.Env, c Case) (msg string, nontrivial bool, classes []
 	a, b := summarize(k, base), summarize(k, got)
 	if a != b || !bytes.Equal(base.Out, got.Out) {
 		return fmt.Sprintf("%s (%d bytes, %s) gives different results under variant %s (%s build):\n baseline %s\n variant  %s", c.Kind, len(c.Payload), c.Source, v.Name, v.Build, a, b), false, nil
+	}
+	if v.WorkFill != 0 {
+		classes = append(classes, "work-buffer-and-dst-slack-garbage")
 	}
 	classes = append(classes, "variant-"+strings.SplitN(v.Name, "+", 2)[0], "build-"+v.Build, "iface-"+[]string{"io_transformer", "image_decoder", "token_decoder", "hasher_u32", "hasher_u64", "hasher_bitvec256"}[k.Iface])
 	produced := len(base.Out) >= 64 || (base.HaveImage && len(base.Frames) > 0) || len(base.Tokens) >= 8 || len(base.Hash) > 0
